@@ -627,7 +627,18 @@ func (i *IRCServer) GetSessions() map[robust.Id]Session {
 	defer i.sessionsMu.RUnlock()
 	result := make(map[robust.Id]Session, len(i.sessions))
 	for id, session := range i.sessions {
-		result[id] = *session
+		copied := *session
+		// The maps must not be shared with the live session: the caller reads
+		// them (e.g. in the status templates) without holding sessionsMu.
+		copied.Channels = make(map[lcChan]bool, len(session.Channels))
+		for channel, v := range session.Channels {
+			copied.Channels[channel] = v
+		}
+		copied.invitedTo = make(map[lcChan]bool, len(session.invitedTo))
+		for channel, v := range session.invitedTo {
+			copied.invitedTo[channel] = v
+		}
+		result[id] = copied
 	}
 	return result
 }
